@@ -95,6 +95,18 @@ public:
 
     ~ReusableArenaBlock()
     {
+        // A block that was allocated, but never committed, does
+        // not contain a constructed object, so return it to the
+        // free list instead of destroying it.
+        if (this->m_firstFreeBlock != this->m_nextFreeBlock)
+        {
+            void* const     p = this->m_objectBlock + this->m_firstFreeBlock;
+
+            new (p) NextBlock(this->m_nextFreeBlock);
+
+            this->m_nextFreeBlock = this->m_firstFreeBlock;
+        }
+
         size_type removedObjects = 0;
 
         for (size_type i = 0;
